@@ -84,7 +84,7 @@ QUICK = [
     VCfg("v", 0, "TR", "basic", "uint64_t", "s8_4"),
     VCfg("v", 0, "NTR", "exact", "int8_t", "sx3"),
     VCfg("s", 1, "NTR", "basic", "uint32_t", "v"),
-    VCfg("s", 1, "TC8", "realloc", "uint16_t", "s3"),
+    VCfg("s", 1, "NTR", "realloc", "uint16_t", "s3"),  # non relocatable element + allocator offering reallocate: it must never be used
     VCfg("s", 2, "TR", "exact", "uint32_t", "v"),
     VCfg("s", 2, "TC4", "basic", "uint8_t", "f3"),
     VCfg("s", 3, "NTR", "exact", "uint32_t", "sx3"),
